@@ -414,3 +414,121 @@ Section AtR.
     destruct (Nat.eqb _ 0); [reflexivity|]. rops. rewrite <- INR_IZR_INZ. reflexivity.
   Qed.
 End AtR.
+
+(* ================================================================== 4. inversion side *)
+Local Open Scope nat_scope.
+
+Lemma filter_all {A} (p : A -> bool) l : (forall x, In x l -> p x = true) -> filter p l = l.
+Proof.
+  induction l as [|a l IH]; intros H; [reflexivity|]. simpl. rewrite (H a (or_introl eq_refl)).
+  f_equal. apply IH. intros x Hx. apply H. right. exact Hx.
+Qed.
+Lemma filter_none {A} (p : A -> bool) l : (forall x, In x l -> p x = false) -> filter p l = [].
+Proof.
+  induction l as [|a l IH]; intros H; [reflexivity|]. simpl. rewrite (H a (or_introl eq_refl)).
+  apply IH. intros x Hx. apply H. right. exact Hx.
+Qed.
+
+(* ---- the running pixel_count loop lists exactly the parameters of unregularized objects *)
+Lemma total_params_from os : forall a, fold_left (fun a o => a + fst o) os a = a + n_params os.
+Proof.
+  unfold n_params. induction os as [|o os IH]; intros a; simpl; [lia|]. rewrite IH. lia.
+Qed.
+Lemma total_params_is os : total_params os = n_params os.
+Proof. unfold total_params. rewrite total_params_from. reflexivity. Qed.
+
+Definition noreg_at (c : nat) (os : list (nat * bool)) : list nat :=
+  flat_map (fun p : (nat * bool) * (nat * nat) =>
+              if snd (fst p) then [] else seq (fst (snd p)) (snd (snd p) - fst (snd p)))
+           (combine os (param_ranges c os)).
+Lemma noreg_at_spec os : forall c i,
+  In i (noreg_at c os) <-> (c <= i < c + n_params os /\ regd_at os (i - c) = false).
+Proof.
+  unfold noreg_at, n_params. induction os as [|[p r] os IH]; intros c i.
+  - simpl. split; [tauto | intros [H _]; lia].
+  - cbn [param_ranges combine flat_map fst snd map list_sum fold_right regd_at].
+    change (fold_right Init.Nat.add 0 (map fst os)) with (list_sum (map fst os)). rewrite in_app_iff, IH.
+    replace (c + p - c) with p by lia.
+    destruct (Nat.ltb_spec (i - c) p) as [L|L].
+    + destruct r.
+      * split; [intros [[]|[H1 H2]]; lia | intros [_ H]; discriminate].
+      * rewrite in_seq. split; [intros [H|[H _]]; [split; [lia|reflexivity] | lia] | intros [H _]; left; lia].
+    + replace (i - c - p) with (i - (c + p)) by lia.
+      destruct r.
+      * split; [intros [[]|[H1 H2]]; split; [lia|exact H2] | intros [H1 H2]; right; split; [lia|exact H2]].
+      * rewrite in_seq. split; [intros [H|[H1 H2]]; [lia | split; [lia|exact H2]] | intros [H1 H2]; right; split; [lia|exact H2]].
+Qed.
+Lemma noreg_spec os i : In i (no_regularization_index_list os) <-> (i < n_params os /\ regd_at os i = false).
+Proof.
+  change (no_regularization_index_list os) with (noreg_at 0 os). rewrite noreg_at_spec, Nat.sub_0_r.
+  split; intros [H1 H2]; (split; [lia | exact H2]).
+Qed.
+Lemma regd_all os i : all_have_reg os = true -> i < n_params os -> regd_at os i = true.
+Proof.
+  unfold all_have_reg, n_params. revert i. induction os as [|[p r] os IH]; intros i H Hi; simpl in *; [lia|].
+  apply andb_prop in H as [Hr H]. destruct (Nat.ltb_spec i p); [exact Hr|]. apply IH; [exact H | lia].
+Qed.
+Lemma regd_none os i : has_reg os = false -> regd_at os i = false.
+Proof.
+  unfold has_reg. revert i. induction os as [|[p r] os IH]; intros i H; simpl in *; [reflexivity|].
+  apply orb_false_elim in H as [Hr H]. destruct (i <? p); [exact Hr | apply IH; exact H].
+Qed.
+Lemma reg_indices_all os : all_have_reg os = true -> reg_indices os = seq 0 (n_params os).
+Proof. intros H. apply filter_all. intros i Hi. apply in_seq in Hi. apply regd_all; [exact H | lia]. Qed.
+Lemma reg_indices_none os : has_reg os = false -> reg_indices os = [].
+Proof. intros H. apply filter_none. intros i _. apply regd_none. exact H. Qed.
+Lemma reg_indices_lt os i : In i (reg_indices os) -> i < n_params os.
+Proof. unfold reg_indices. rewrite filter_In, in_seq. lia. Qed.
+
+(* ---- np.delete keeps, in order, the entries whose position is not listed *)
+Lemma delete_from_spec {A} (d : A) idxs l : forall k,
+  delete_from k idxs l =
+  map (fun i => nth (i - k) l d) (filter (fun i => negb (existsb (Nat.eqb i) idxs)) (seq k (length l))).
+Proof.
+  induction l as [|a l IH]; intros k; [reflexivity|].
+  cbn [delete_from length seq filter]. rewrite IH.
+  assert (E : forall L, (forall i, In i L -> S k <= i) ->
+            map (fun i => nth (i - S k) l d) L = map (fun i => nth (i - k) (a :: l) d) L).
+  { intros L HL. apply map_ext_in. intros i Hi. specialize (HL i Hi).
+    replace (i - k) with (S (i - S k)) by lia. reflexivity. }
+  rewrite E by (intros i Hi; apply filter_In in Hi as [Hi _]; apply in_seq in Hi; lia).
+  destruct (existsb (Nat.eqb k) idxs); cbn [negb map]; [reflexivity|].
+  rewrite Nat.sub_diag. reflexivity.
+Qed.
+Lemma np_delete_noreg {A} (d : A) os l : length l = n_params os ->
+  np_delete (no_regularization_index_list os) l = map (fun i => nth i l d) (reg_indices os).
+Proof.
+  intros HL. unfold np_delete. rewrite (delete_from_spec d), HL. unfold reg_indices.
+  rewrite (filter_ext_in (fun i => negb (existsb (Nat.eqb i) (no_regularization_index_list os))) (regd_at os)).
+  - apply map_ext. intros i. rewrite Nat.sub_0_r. reflexivity.
+  - intros i Hi. apply in_seq in Hi.
+    destruct (existsb (Nat.eqb i) (no_regularization_index_list os)) eqn:E; cbn [negb].
+    + apply existsb_exists in E as (j & Hj & Ej). apply Nat.eqb_eq in Ej. subst j.
+      apply noreg_spec in Hj as [_ Hj]. symmetry. exact Hj.
+    + destruct (regd_at os i) eqn:G; [reflexivity|]. exfalso.
+      assert (Hin : In i (no_regularization_index_list os)) by (apply noreg_spec; split; [lia | exact G]).
+      assert (X : existsb (Nat.eqb i) (no_regularization_index_list os) = true)
+        by (apply existsb_exists; exists i; split; [exact Hin | apply Nat.eqb_refl]).
+      congruence.
+Qed.
+
+Section InvAny.
+  Context {O : NumOps}.
+  Lemma squareb_spec n (M : list (list (T O))) : squareb n M = true ->
+    length M = n /\ forall i, i < n -> length (nth i M []) = n.
+  Proof.
+    unfold squareb. intros H. apply andb_prop in H as [H1 H2]. apply Nat.eqb_eq in H1. split; [exact H1|].
+    intros i Hi. rewrite forallb_forall in H2. apply Nat.eqb_eq. apply H2. apply nth_In. lia.
+  Qed.
+  (* np.delete on both axes = the principal submatrix on the regularized indices *)
+  Lemma reduce_matrix_is_principal os (M : list (list (T O))) : squareb (n_params os) M = true ->
+    reduce_matrix os M = principal_sub M (reg_indices os).
+  Proof.
+    intros HS. destruct (squareb_spec _ M HS) as [HL HR]. unfold reduce_matrix, principal_sub, mat_at.
+    destruct (all_have_reg os) eqn:A.
+    - rewrite (reg_indices_all os A). rewrite (list_as_map [] M) at 1. rewrite HL. apply map_ext_in.
+      intros i Hi. apply in_seq in Hi. rewrite (list_as_map zero (nth i M [])) at 1. rewrite HR by lia. reflexivity.
+    - rewrite (np_delete_noreg [] os M HL), map_map. apply map_ext_in. intros i Hi.
+      apply np_delete_noreg. apply HR. apply reg_indices_lt. exact Hi.
+  Qed.
+End InvAny.
